@@ -445,9 +445,13 @@ pub fn run_check(def: &CheckDef, opts: &Opts) -> i32 {
     let merged: Mutex<Vec<Partial>> = Mutex::new(vec![]);
     let chunk: u64 = 16;
 
+    let crumbs: Option<String> = std::env::var("VERIF_BREADCRUMBS").ok();
+    let crumbs = &crumbs;
+    {
+    let (next, stop, merged, cum, tolerate) = (&next, &stop, &merged, &cum, &tolerate);
     std::thread::scope(|s| {
         for _w in 0..opts.workers {
-            s.spawn(|| {
+            s.spawn(move || {
                 let mut p = Partial {
                     stats: Stats::default(),
                     distinct: HashSet::new(),
@@ -473,6 +477,9 @@ pub fn run_check(def: &CheckDef, opts: &Opts) -> i32 {
                         let idx = flat - base;
                         let b = &def.batches[bi];
                         let seed = run_seed(opts.seed, prop, b.scenario.name(), idx);
+                        if let Some(dir) = &crumbs {
+                            let _ = std::fs::write(format!("{}/w{}", dir, _w), format!("{} {}\n", b.scenario.name(), idx));
+                        }
                         let o = exec_run(prop, &b.scenario, Source::Seed(seed), false, &tolerate);
                         p.runs += 1;
                         p.draws += o.draws;
@@ -506,6 +513,7 @@ pub fn run_check(def: &CheckDef, opts: &Opts) -> i32 {
         }
     });
 
+    }
     let parts = merged.into_inner().unwrap();
     let mut stats = Stats::default();
     let mut distinct: HashSet<u64> = HashSet::new();
@@ -753,4 +761,19 @@ fn hash_vals(v: &[u64]) -> u64 {
         h = h.wrapping_mul(0x100000001b3);
     }
     h ^ (v.len() as u64)
+}
+
+
+/// run exactly one (scenario, run index) — used by the supervisor to attribute an abort
+pub fn run_single(def: &CheckDef, scenario: &str, idx: u64, base_seed: u64) -> i32 {
+    let Some(b) = def.batches.iter().find(|b| b.scenario.name() == scenario) else { return 2 };
+    let seed = run_seed(base_seed, def.prop, scenario, idx);
+    let o = exec_run(def.prop, &b.scenario, Source::Seed(seed), true, &Arc::new(HashSet::new()));
+    match o.violation {
+        Some(v) => {
+            println!("single run: {}", v.message);
+            1
+        }
+        None => 0,
+    }
 }
